@@ -354,7 +354,6 @@ class Parser:
             if self.at("-"):
                 self.eat("-")
                 neg = True
-            k2, v2 = self.peek()
             lit = self.p_prim()
             if lit[0] != "lit":
                 raise NotModelled("sub with a non-literal value")
@@ -753,12 +752,11 @@ def ds_binary(op, a, b):
             index.setdefault(tuple(r2[i] for i in common), []).append(r2)
         for r1 in a.rows:
             for r2 in index.get(tuple(r1[i] for i in common), ()):
-                if True:
-                    src = r1 if big is a else r2
-                    row = {i: src[i] for i in big.ids()}
-                    for x in ma:
-                        row[x[0]] = ev(("bin", op, ("lit", r1[x[0]], None), ("lit", r2[x[0]], None)), {})
-                    rows.append(row)
+                src = r1 if big is a else r2
+                row = {i: src[i] for i in big.ids()}
+                for x in ma:
+                    row[x[0]] = ev(("bin", op, ("lit", r1[x[0]], None), ("lit", r2[x[0]], None)), {})
+                rows.append(row)
         return Rel(comps, rows)
     ds, left = (a, True) if isinstance(a, Rel) else (b, False)
     sc = b if left else a
